@@ -237,7 +237,9 @@ def load_obligations():
 def lean_side(pid, tier):
     """Build, scan, audit.  Returns (coverage dict, problems list)."""
     problems = []
-    b = lake_build()
+    # only this property's theorem files (with what they import) and the executable model: a broken proof of another
+    # property is that property's alarm, not this one's
+    b = lake_build(tuple(prop_modules(pid)) + ('mtfit_driver',))
     if not b['ok']:
         problems.append({'kind': 'lean-build-failed', 'detail': b['errors'] or b['tail']})
         return ({'obligations': len(load_obligations().get(pid, [])) or 1, 'discharged': 0,
